@@ -205,11 +205,11 @@ def trial(scratch, scenario, n, r, res, imds):
     b = realagent.RealAgent(scratch, tag=tag + "-restart", vdir=vdir, worker_threads=2)
     ok_signed, used = False, None
     t0 = time.time()
-    while time.time() - t0 < 8:
+    while time.time() - t0 < 30:      # a watchdog, generous for a loaded machine; a restart that can authenticate does so within a second
         if ws.latched and (ws.count("status") >= 1):
             # proxied request; must be signed with the key the host has latched
             try:
-                c = rawhttp.Conn("127.0.0.1", 3080, connect=False, timeout=3)
+                c = rawhttp.Conn("127.0.0.1", 3080, connect=False, timeout=10)
                 standin.inject(vdir, c.src_port, 0, os.getpid(), 1, "169.254.169.254", 80)
                 c.connect()
                 vid = "%s-%d" % (tag, int((time.time() - t0) * 1000))
